@@ -28,11 +28,14 @@ import (
 // a deepShape builds one item in which a long run of tokens is shifted with no reduction
 // in between: open+sep repeated, a core, close+sep repeated. sep is a reported comment,
 // so that every shift still produces a listener event (progress stays observable).
-type deepShape struct{ head, open, sep, core, close, tail string }
+type deepShape struct {
+	head, open, sep, core, close, tail string
+	maxDepth                           int // 0: as deep as the token budget allows
+}
 
 type corpus struct {
 	events   func(in string) []event // all events of an uncancelled parse (set before validate)
-	sigs     []uint64 // per item: signature of the events of an undamaged parse (0: context dependent)
+	sigs     []uint64                // per item: signature of the events of an undamaged parse (0: context dependent)
 	deep     []deepShape
 	prologue string
 	items    []string
@@ -99,6 +102,10 @@ func (c *corpus) gen(src *sim.Src, ntok, brk int) (string, []itemSpan) {
 		depth := ntok / 2
 		if d.close == "" {
 			depth = ntok
+		}
+		if d.maxDepth > 0 && depth > d.maxDepth {
+			// every level re-scans the levels below it: the parse is quadratic in the depth
+			depth = d.maxDepth/2 + src.Draw(d.maxDepth/2+1)
 		}
 		var db strings.Builder
 		db.WriteString(d.head)
@@ -515,10 +522,15 @@ var jsCorpus = &corpus{
 		{head: "x = `a", open: "${b}c", sep: "", core: "", close: "", tail: "`;"},
 		{head: "x = a", open: " + b", sep: " /*c*/", core: "", close: "", tail: ";"},
 		{head: "x;\n", open: "", sep: "// c\n", core: "y;", close: "", tail: ""},
+		// arrow functions whose parameter defaults are arrow functions: every level is decided
+		// by a lookahead sub-parser running inside the sub-parser of the level above
+		{head: "x = ", open: "(a, b = ", sep: "/*c*/", core: "1", close: ", c) => 1", tail: ";", maxDepth: 120},
+		{head: "f(", open: "(a = ", sep: " ", core: "(p, q, r, s) => p", close: ") => a", tail: ");", maxDepth: 120},
 	},
 	sep: "\n",
 	items: []string{
 		"var a = 1;",
+		"h = (p = (q0, q1, q2, q3, q4, q5, q6, q7) => 1, r = (s) => (t = (u) => u) => t) => 2;",
 		"let b = a + 2 * c;",
 		"const f = (x, y) => x + y;",
 		"const g = (x) => { return x; };",
@@ -791,10 +803,12 @@ func registerGenerated(name string, parse func(ctx context.Context, in string, e
 	ends func(string) []int, c *corpus, deep [][6]string, hasEH, lookaheads bool) {
 	sess := func() func(ctx context.Context, in string, rec *recorder) (string, error) {
 		f := newSession()
-		return func(ctx context.Context, in string, rec *recorder) (string, error) { return f(ctx, in, rec.Event, rec.ErrH) }
+		return func(ctx context.Context, in string, rec *recorder) (string, error) {
+			return f(ctx, in, rec.Event, rec.ErrH)
+		}
 	}
 	for _, d := range deep {
-		c.deep = append(c.deep, deepShape{d[0], d[1], d[2], d[3], d[4], d[5]})
+		c.deep = append(c.deep, deepShape{head: d[0], open: d[1], sep: d[2], core: d[3], close: d[4], tail: d[5]})
 	}
 	p := func(ctx context.Context, in string, rec *recorder) (string, error) {
 		return parse(ctx, in, rec.Event, rec.ErrH)
